@@ -86,7 +86,8 @@ def bfs_scenarios(quick: bool) -> list[dict]:
     sc.append({"qos_mode": False, "flat": True, "callers": [caller("rq30c9_01", timeout=20.0), caller("w2309_02", timeout=0.5001)], "dev": ("drop", "disc")})
     if not quick:
         sc.append({"qos_mode": False, "flat": True, "callers": [caller("rq30c9_01", timeout=20.0), caller("w2309_02", timeout=1.5001), caller("rq30c9_03", timeout=20.0)], "dev": ("drop", "disc")})
-    sc.append({"qos_mode": False, "flat": True, "callers": [caller("rq30c9_01", timeout=20.0), caller("w2309_02", timeout=20.0)], "dev": ("drop", "cancel")})
+    # (caller cancellation is explored by the deviation-bounded search only: with it the canonical state is not yet a sound basis for
+    #  merging - the merge audit found two histories that hash alike and end differently - so no state-hashing run uses it)
     # writing paused and resumed at any point (an MQTT gateway going offline / online), any number of times, among losses
     sc.append({"qos_mode": False, "flat": True, "callers": [caller("rq30c9_01", timeout=20.0)], "dev": ("drop", "pause")})
     if not quick:
